@@ -72,8 +72,13 @@ FormatClauses(e) ==
           Cl("C15.unitless", kn /\ ok /\ unitless /\ Ok(e.ref), o = e.ref.ok.cp),
           Cl("C15.layout", kn /\ ok /\ ~unitless /\ fin, wellformed),
           Cl("C15.sign", kn /\ ok /\ ~unitless /\ fin /\ wellformed /\ ~negz, pn.sign = expsign),
-          Cl("C15.width", kn /\ ok /\ ~unitless /\ fin /\ wellformed, Len(o) = Max(W, Len(core))),
-          Cl("C15.align", kn /\ ok /\ ~unitless /\ fin /\ wellformed /\ pad > 0,
+          Cl("C15.width", kn /\ ok /\ ~unitless /\ fin /\ wellformed /\ ~sp.zero, Len(o) = Max(W, Len(core))),
+          Cl("C15.zero_flag", kn /\ ok /\ ~unitless /\ fin /\ wellformed /\ sp.zero,
+                 \* sign first, then zeros up to the width: no fill characters, and any surplus
+                 \* leading zero of the integer part is there only to reach the width
+                 LET z == Min2(CountLead(pn.ints, 0, 1), Len(pn.ints) - 1) IN
+                 pl = 0 /\ pr = 0 /\ Len(o) = Max(W, Len(o) - z)),
+          Cl("C15.align", kn /\ ok /\ ~unitless /\ fin /\ wellformed /\ pad > 0 /\ ~sp.zero,
                  CASE sp.align = "<" -> pl = 0
                    [] sp.align = ">" -> pr = 0
                    [] sp.align = "^" -> pl = pad \div 2
